@@ -5,7 +5,11 @@ ASSUMPTIONS = ["the OS scheduler and multiprocessing internals are not modelled:
                "[f(x) for x in xs]; imap_unordered a permutation) is assumed; the bounded layer executes every pool-using tool under "
                "a controllable in-process pool (submission, reversed, shuffled execution/completion orders) and the real pool "
                "with 1/2/16 workers and compares files byte for byte and returned values bit for bit",
-               "pathos caches one pool per process: for chef only the controllable pool is varied"]
+               "pathos caches one pool per process: for chef only the controllable pool is varied",
+               "pool lifetime (assumed contract of CPython's multiprocessing.pool, observed on 3.12.1): a pool only its imap iterator "
+               "references can block the iteration for ever under some completion orders; the syntactic side condition "
+               "'lifetime' forbids that shape at every lazy pool site (temporary Pool().imap, iterator leaving the function "
+               "of a plain local pool); it can only confirm shapes it knows"]
 TRUSTED = ["multiprocessing.Pool / pathos ProcessingPool (assumed contract)"]
 
 
